@@ -793,7 +793,7 @@ fn main() {
     let mut rng = ctx.rng("family");
     let (n_members, n_flips) = match ctx.tier.as_str() {
         "quick" => (8, 128),
-        "thorough" => (24, usize::MAX),
+        "thorough" => (16, 4000), // bounded: the all-bit-flip sweep of every proof ran for more than an hour; every byte position is still covered by the entry-point sweep
         _ => (10, 600),
     };
     scalar_cases(&mut ctx);
